@@ -36,13 +36,16 @@ def lib(auto=False):
 
 
 LENS = [0, 1, 2, 3, 4, 252, 253, 254, 255, 256, 257, 1000, 65540]
+# symbolic lengths: n = 4q + r, r fixed (it decides the padding), q symbolic within the framing class
+SYM_LENS = [('short', r) for r in range(4)] + [('long', r) for r in range(4)]
 
 
 class Shape:
     """concrete shape choices of one case, consumed in generation order (rotating)"""
 
-    def __init__(self, rot, flags=None):
+    def __init__(self, rot, flags=None, symlen=None):
         self.rot, self.flags, self.k = rot, flags or {}, 0
+        self.symlen = symlen          # index into SYM_LENS: top-level bytes fields get a SYMBOLIC length of that class
 
     def next(self, n):
         v = (self.rot + 3 * self.k) % n
@@ -68,6 +71,13 @@ def gen(w, t, path, sh, depth=0):
         b = [False, True][sh.next(2)]
         return b, b, Seq.from_bytes(ST.BOOL_TRUE if b else ST.BOOL_FALSE)
     if t in ('bytes', 'string'):
+        if sh.symlen is not None and depth <= 1 and t == 'bytes':
+            cls_, r = SYM_LENS[sh.symlen]
+            q = w.int(path + '.q', 0, 63 if cls_ == 'short' else (1 << 22) - 1)
+            n = 4 * q + r
+            w.assume(n <= 253 if cls_ == 'short' else n >= 254)
+            b = w.bytes(path, n)
+            return b, b, ST.frame_sym(w, w.bytes_seq(b), n, cls_, r)
         n = LENS[sh.next(len(LENS))]
         if depth > 1:
             n = min(n, 257)
@@ -131,6 +141,14 @@ def gen_con(w, c, path, sh, depth, flagval):
     return val, exp, s
 
 
+def nbytes(seq):
+    L = seq.length()
+    if type(L) is int:
+        return L // 8
+    from vf.sym import mk_int
+    return mk_int(L) // 8
+
+
 def same(w, got, exp, path='v'):
     """conjunction: the parsed value equals the expected one (dicts field-wise; '@type' is the only key the parser may add)"""
     if isinstance(exp, dict):
@@ -178,6 +196,32 @@ def con_cases():
     return out
 
 
+# constructors with exactly one top-level bytes field and no string / vector / nested bytes: these get the symbolic-length cases
+def symlen_cases():
+    u = U()
+    out = []
+    for c in u.by_name.values():
+        if not u.supported_con(c):
+            continue
+        ts = [t for _, t, cond in c.fields]
+        if ts.count('bytes') == 1 and all(t in ('bytes', 'int', 'long', 'int256', 'int128', '#', 'Bool') or (t in u.by_name and ST.is_bare_name(t) and
+                                          all(ft in ('int', 'long', 'int256', 'int128') for _, ft, _ in u.by_name[t].fields)) for t in ts) \
+                and not any(cond for _, _, cond in c.fields):
+            for i in range(len(SYM_LENS)):
+                out.append({'name': c.name, 'symlen': i})
+    return out
+
+
+_SCASES = None
+
+
+def scases():
+    global _SCASES
+    if _SCASES is None:
+        _SCASES = symlen_cases()
+    return _SCASES
+
+
 _CASES = None
 
 
@@ -218,7 +262,35 @@ def constructor(w, i, shape):
     w.claim(f'deserialize does not raise ({type(r).__name__ + ": " + str(r)[:60] if k2 != "ok" else ""})', k2 == 'ok')
     if k2 == 'ok':
         got, n = r
-        w.claim('consumes exactly all bytes', n == enc.length() // 8)
+        w.claim('consumes exactly all bytes', n == nbytes(enc))
+        w.claim('returns the same value', same(w, got, exp))
+
+
+@obligation('C14.symlen', 'C14', cases=[{'i': i, 'shape': f"{c['name']}|{SYM_LENS[c['symlen']]}"} for i, c in enumerate(scases())],
+            fuc=[G + 'TlSchemas.serialize', G + 'TlSchemas.serialize_field', G + 'TlSchemas.deserialize'],
+            descr='bytes fields of SYMBOLIC length: for every constructor with one top-level bytes field (and otherwise fixed-width fields) the '
+                  'length is n = 4q + r with q symbolic over the whole framing class (short: n <= 253; long: 254 <= n < 2^24) and r = 0..3 '
+                  '(the padding residue): serialize == TL framing (1-byte / 0xFE + 3-byte length, zero padding to a multiple of 4) and '
+                  'deserialize inverts it, for EVERY length', budget={'seconds': 60, 'paths': 400})
+def symlen(w, i, shape):
+    case = scases()[i]
+    M, schemas = lib(auto=False)
+    c = U().by_name[case['name']]
+    sh = Shape(0, symlen=case['symlen'])
+    val, exp, body = gen_con(w, c, c.name, sh, 1, None)
+    enc = Seq.from_bytes(c.id.to_bytes(4, 'little')) + body
+    exp = dict(exp)
+    exp['@type'] = c.name
+    k, ser = call(schemas.serialize, schemas.get_by_name(c.name), val)
+    w.claim(f'serialize does not raise ({type(ser).__name__ + ": " + str(ser)[:60] if k != "ok" else ""})', k == 'ok')
+    if k == 'ok':
+        w.claim('serialize == TL encoding', w.eq_seq(w.bytes_seq(ser), enc))
+    data = SC._as_bytes(w, enc)
+    k2, r = call(schemas.deserialize, data)
+    w.claim(f'deserialize does not raise ({type(r).__name__ + ": " + str(r)[:60] if k2 != "ok" else ""})', k2 == 'ok')
+    if k2 == 'ok':
+        got, n = r
+        w.claim('consumes exactly all bytes', n == nbytes(enc))
         w.claim('returns the same value', same(w, got, exp))
 
 
